@@ -53,14 +53,14 @@ CHECKS = {
     "C14": dict(
         category="exploration",
         technique="runtime monitoring: shadow-bitmap oracle over the real BuddyAllocator / region allocator driven through cfg(redb_verif) wrappers",
-        text="Every region capacity 1..160 with sampled (quick) or all (thorough) initial sizes, hundreds of random alloc/alloc_lowest/free/record_alloc/resize/reload steps each; every answer is judged against a shadow bitmap (in range, disjoint, refusal only when no aligned free block exists, merged order maximal, counts, serialized bytes decoded independently, can-allocate == block-exists for every order after every few steps). Region level: lowest region with a suitable block must be used and the file may grow only when none has one.",
+        text="Every region capacity 1..160 with sampled (quick) or all (thorough) initial sizes, hundreds of random alloc/alloc_lowest/free/record_alloc/resize/reload steps each; every answer is judged against a shadow bitmap (in range, disjoint, refusal only when no aligned free block exists, merged order maximal, counts, serialized bytes decoded independently, can-allocate == block-exists for every order after every few steps). Region level: lowest region with a suitable block must be used and the file may grow only when none has one. A database-level stratum fills, empties, shrinks (regions removed) and refills a real database with 8/16/32-page regions three times, with the ownership accountant after every commit.",
         note="Trusted: the shadow bitmap; shrinking resize only issued when the tail is free (the caller contract). Operation sequences are sampled.",
         design="5/C14",
     ),
     "C15": dict(
         category="exploration",
         technique="runtime monitoring: direct oracle on the public Key/Value trait functions over exhaustive boundary pools and random batches",
-        text="For 27 built-in key types: all ordered pairs of a boundary pool (exhaustive for bool/u8/i8) checked for compare == native order, round trip, and separator validity (a <= s < b, len(s) <= len(a), canonical encoding); triples check that every key <= a does not sort above s and every key >= b does; random batches with engineered prefixes. Exhaustive only on the bounded pools.",
+        text="For 27 built-in key types: all ordered pairs of a boundary pool (exhaustive for bool/u8/i8) checked for compare == native order, round trip, and separator validity (a <= s < b, len(s) <= len(a), canonical encoding); triples check that every key <= a does not sort above s and every key >= b does; random batches with engineered prefixes. Exhaustive only on the bounded pools. Pools and generators include elements of 253/254/255/300 (rarely 65535/65536) bytes so that composite encodings use 1-, 3- and 5-byte length prefixes.",
         note="Trusted: Rust's Ord on the native values. f32/f64/uuid/chrono types are not part of the baseline configuration.",
         design="5/C15",
     ),
@@ -75,7 +75,7 @@ CHECKS = {
     "C20": dict(
         category="exploration",
         technique="runtime monitoring: online contract assertions inside the storage backend given to redb (bounds, copy-on-write set decoded independently at every sync, close-once, no call after close, read-only never mutates) over failing opens, injected failures, life-cycle orders and random histories",
-        text="The monitoring backend asserts the contract at every call. Scenarios: 14 kinds of damaged/unclean images opened (and used when the open succeeds), open/use/drop with the k-th backend call failing, database dropped while a writer is live on another thread, writer and readers outliving the database, reopen cycles, check_integrity/compact, read-only databases over clean and unclean files (through the cfg(redb_verif) constructor), random histories. Scenarios and fault indices are sampled.",
+        text="The monitoring backend asserts the contract at every call. Scenarios: 14 kinds of damaged/unclean images opened (and used when the open succeeds), open/use/drop with the k-th backend call failing, database dropped while a writer is live on another thread, writer and readers outliving the database, reopen cycles, check_integrity/compact, read-only databases over clean and unclean files (through the cfg(redb_verif) constructor), random histories. Scenarios and fault indices are sampled. A third of the life-cycle scenarios make the backend's own close() report an error.",
         note="Trusted: the monitor serializes calls with its own mutex, so 'after close' means 'acquired the monitor after close() did'; the copy-on-write set comes from harness/src/fmt.rs. The real FileBackend is not traced in the quick tier.",
         design="5/C20",
     ),
@@ -90,7 +90,7 @@ CHECKS = {
     "C05": dict(
         category="exploration",
         technique="runtime monitoring: before/after state capture (contents, savepoints, savepoint validity, allocated-page set from the allocator snapshot hook) around abandoned, poisoned and I/O-failed transactions",
-        text="After an arbitrary prelude the full state is captured (contents, persistent savepoint ids, validity of every live Savepoint handle, stats().allocated_pages(), exact allocated page set); a transaction mixing table writes, catalog changes and savepoint operations is ended by abort, by drop, by a panicking retain/extract_if predicate followed by commit (must be TransactionPoisoned) or by a one-shot read failure inside rename/delete/restore (commit must fail, writes refused, state after reopen as before); the capture must be identical afterwards and the ownership accountant must balance.",
+        text="After an arbitrary prelude the full state is captured (contents, persistent savepoint ids, validity of every live Savepoint handle, stats().allocated_pages(), exact allocated page set); a transaction mixing table writes, catalog changes and savepoint operations is ended by abort, by drop, by a panicking retain/extract_if predicate followed by commit (must be TransactionPoisoned) or by a one-shot read failure inside rename/delete/restore (commit must fail, writes refused, state after reopen as before); the capture must be identical afterwards and the ownership accountant must balance. The tracker's registrations (live reads, savepoints, pending commits) are compared before/after the abandoned transaction and every case ends with a drain (all pins dropped, at most 3 empty commits, nothing pending free).",
         note="Trusted: the allocator snapshot hook H3 and the decoder; bodies and preludes are sampled.",
         design="5/C05",
     ),
@@ -111,7 +111,7 @@ CHECKS = {
     "C11": dict(
         category="exploration",
         technique="runtime monitoring: ownership accountant immediately after every kind of open, repeated check_integrity, continued writing, and an independent decode of the allocator-state table stored in the closed file",
-        text="Up to 4 stop/open cycles per storage: clean close, crash right after a quick-repair commit, crash after ordinary commits following a quick-repair commit, crash with all writes applied, crash at a random position with a random subset of unsynced writes. After each open: exact allocator-vs-reachability equality, check_integrity x3 (with and without a pending non-durable commit) must be Ok(true) with unchanged contents, 2-10 more transactions with the accountant after each; after the final clean close the stored allocator-state table is decoded independently and compared with what the file needs.",
+        text="Up to 4 stop/open cycles per storage: clean close, crash right after a quick-repair commit, crash after ordinary commits following a quick-repair commit, crash with all writes applied, crash at a random position with a random subset of unsynced writes. After each open: exact allocator-vs-reachability equality, check_integrity x3 (with and without a pending non-durable commit) must be Ok(true) with unchanged contents, 2-10 more transactions with the accountant after each; after the final clean close the stored allocator-state table is decoded independently and compared with what the file needs. Every 8th case is a many-regions case (512-byte pages, 8-page regions, up to ~470 regions).",
         note="Trusted: hooks H3/H4, the decoder, the crash model. One random subset per random-position stop (C01 enumerates).",
         design="5/C11",
     ),
@@ -148,7 +148,7 @@ CHECKS = {
     "C19": dict(
         category="exploration",
         technique="runtime monitoring: differential execution against redb 3.0.0 linked into the same harness, with a reference model carried across the version boundary in both directions",
-        text="Files written by the working tree (plain key types, long-common-prefix keys with shortened separators over several levels, multimaps, savepoints, every commit strategy; at clean close and as crash images) are opened by redb 3.0.0: contents and savepoints must equal an admissible commit point and 3.0.0's check_integrity must be Ok(true); 3.0.0 continues the file and the working tree reads it back; and the reverse direction. Composite built-in types are a separate stratum. Two known findings are listed in known_findings.json.",
+        text="Files written by the working tree (plain key types, long-common-prefix keys with shortened separators over several levels, multimaps, savepoints, every commit strategy; at clean close and as crash images) are opened by redb 3.0.0: contents and savepoints must equal an admissible commit point and 3.0.0's check_integrity must be Ok(true); 3.0.0 continues the file and the working tree reads it back; and the reverse direction. Composite built-in types are a separate stratum. Two known findings are listed in known_findings.json. A third of the working-tree histories take a persistent savepoint on the still empty database.",
         note="Trusted: redb 3.0.0 from the offline registry as the reference reader; 4 KiB pages only; one older release.",
         design="5/C19",
     ),
